@@ -3,6 +3,14 @@
 #include <cstdio>
 #include <utility>
 
+#if defined(__GLIBCXX__) || defined(_LIBCPP_VERSION)
+// Itanium C++ ABI: __cxa_get_globals() returns the per-thread { caughtExceptions, uncaughtExceptions }
+#  include <cxxabi.h>
+#  define YACLIB_FIBER_EH_GLOBALS 1
+#else
+#  define YACLIB_FIBER_EH_GLOBALS 0
+#endif
+
 namespace yaclib::detail::fiber {
 
 static FiberBase::Id sNextId = 1;
@@ -23,7 +31,18 @@ void FiberBase::Resume() {
 
   _state = Running;
 
+#if YACLIB_FIBER_EH_GLOBALS
+  // a fiber suspended inside a catch block must find its own handled exceptions when it continues,
+  // and must not see those of the fibers that ran meanwhile
+  auto& eh = *reinterpret_cast<EhGlobals*>(abi::__cxa_get_globals());
+  const EhGlobals caller_eh = eh;
+  eh = _eh;
+#endif
   _caller_context.SwitchTo(_context);
+#if YACLIB_FIBER_EH_GLOBALS
+  _eh = eh;
+  eh = caller_eh;
+#endif
 
   if (_exception != nullptr) {
     rethrow_exception(_exception);
